@@ -245,8 +245,9 @@ class M(Model):
         xy = np.asarray(s0.coordinates)
         if xy.shape != (N + 1, 2):
             return [("coordinates shape", str(xy.shape))]
-        if not np.issubdtype(xy.dtype, np.floating) or not np.isfinite(xy).all():
-            out.append(("coordinates not finite floats", short(xy)))
+        xy = np.asarray(xy, np.float64)  # (dtype conformance is C01's business)
+        if not np.isfinite(xy).all():
+            out.append(("coordinates not finite", short(xy)))
         elif (xy < 0).any() or (xy > 1).any():
             out.append(("coordinates outside the unit square", f"min={xy.min()} max={xy.max()}"))
         d = np.asarray(s0.demands)
